@@ -218,8 +218,9 @@ mod http {
                                     acc.outcomes.insert(fp64(&(peers.len(), limit, n.min(70))));
                                 }
                             }
-                            // (a reply that already broke the rule cannot be expected to cover the offset space)
-                            if n > limit && limit >= 2 && seen_pairs.len() != to_one * span_two && acc.run.violation_hits() == 0 {
+                            // (a reply that already broke the rule cannot be expected to cover the offset space; more start pairs than expected are
+                            // not a fault of the sweep: the rule check decides whether they matter)
+                            if n > limit && limit >= 2 && seen_pairs.len() < to_one * span_two && acc.run.violation_hits() == 0 {
                                 machinery_failure(&format!("http: offset pair coverage incomplete for n={} limit={}: {} of {}", n, limit, seen_pairs.len(), to_one * span_two));
                             }
                         }
@@ -489,7 +490,7 @@ mod ws {
                                 }
                             }
                         }
-                        if two_halves && m >= 1 && seen_pairs.len() != to_one * span_two && acc.run.violation_hits() == 0 {
+                        if two_halves && m >= 1 && seen_pairs.len() < to_one * span_two && acc.run.violation_hits() == 0 {
                             machinery_failure("ws: pair sweep incomplete");
                         }
                     }
